@@ -31,6 +31,9 @@ def mk_doc(h, spec, counter):
             t = tok(); r, l = lr()
             lv = b[1] if len(b) > 1 else 1
             neutral.append({'k': 'Header', 't': t, 'lv': lv, 'lr': l}); vals.append(h.header(lv, [h.istr(t)], r))
+        elif k == 'Hs':      # heading whose text repeats in other notes
+            r, l = lr()
+            neutral.append({'k': 'Header', 't': 'SAME', 'lv': 1, 'lr': l}); vals.append(h.header(1, [h.istr('SAME')], r))
         elif k == 'QH':
             t = tok(); r, l = lr()
             neutral.append({'k': 'Quote', 'lr': l, 'c': [{'k': 'Header', 't': t, 'lv': 1, 'lr': l}]})
@@ -231,7 +234,7 @@ class LibHarness(Harness):
 
     def new_token(self, spec, h, counter):
         n, v = mk_doc(h, spec, counter)
-        tok = 'DOC%d' % len(self.cur_docs)
+        tok = 'DOC%d' % len(self.cur_docs) if spec else ''        # the text of an empty document is the empty string
         self.cur_docs[tok] = (n, v, spec)
         return tok
 
@@ -261,11 +264,27 @@ class LibHarness(Harness):
         return obs, nodes, keys
 
     def fresh(self, ex, texts):
+        return self.fresh_db(ex, texts).get('graph')
+
+    def fresh_db(self, ex, texts):
+        """Database::new on the given texts (import + search paths + raw text map), as a server start does"""
         st = MapV('HashMap')
         for k, tok in texts.items():
             st.d[k] = (k, Cell(tok))
         opts = ex.call('<MarkdownOptions as Default>::default', [], 'model::config::MarkdownOptions')
-        return ex.call('Graph::import', [Ref(Cell(st)), opts])
+        return ex.call('Database::new', [st, False, opts])
+
+    def observe_db(self, ex, db, texts, nodes, om):
+        obs = {}
+        for k in sorted(texts):
+            e = db.get('content').d.get(('model::Key', k))
+            obs['content:' + k] = pyval(e[1].v) if e else None
+        sp = []
+        for p in (x.v for x in db.get('paths').items):
+            ids = [c.v for c in p.get('path').get('ids').items]
+            sp.append([pyval(p.get('key'))['relative_path'], p.get('root'), p.get('line'), p.get('node_rank'), [list(name_id(i, nodes, om)) for i in ids], p.get('search_text')])
+        obs['search'] = sp
+        return obs
 
     def run(self, ctx, ex):
         h = self.h
@@ -277,22 +296,24 @@ class LibHarness(Harness):
         upd = self.keys[ctx.choose(2)]
         oth = [k for k in self.keys if k != upd][0]
         targets = [oth, 'zz', upd]
-        other_menu = [[('P',)], [('H',), ('R', upd)], [('I', upd)], [('R', 'zz')]] + ([] if quick else [[('H',), ('P',)], [('I', 'zz')]])
+        other_menu = [[('P',)], [('H',), ('R', upd)], [('I', upd)], [('R', 'zz')], [('Hs',), ('P',)]] + ([] if quick else [[('H',), ('P',)], [('I', 'zz')]])
         other_spec = other_menu[ctx.choose(len(other_menu))]
         if self.mode == 'meta':
             other_spec = [('P',)]
             old_spec = ([('M', 'title: x\n')] if ctx.choose(2) else []) + [('H',), ('P',)]
         elif quick:
             old_menu = [[], [('P',)], [('R', oth)], [('I', oth)], [('R', 'zz')], [('I', 'zz')],
-                        [('T',), ('P',)], [('T',), ('R', oth)], [('C',), ('I', oth)], [('U',), ('P',)]]
+                        [('T',), ('P',)], [('T',), ('R', oth)], [('C',), ('I', oth)], [('U',), ('P',)], [('P',), ('Hs',)]]
             old_spec = ([('H',)] if ctx.choose(2) else []) + old_menu[ctx.choose(len(old_menu))]
         else:
             old_spec = gen_doc_spec(ctx, targets[:2], 1, False)
         texts = {upd: self.new_token(old_spec, h, counter), oth: self.new_token(other_spec, h, counter)}
         texts0 = dict(texts)
         step_texts = []
-        g = self.fresh(ex, texts)
-        gref = Ref(Cell(g))
+        db = self.fresh_db(ex, texts)
+        dbref = Ref(Cell(db))
+        g = db.get('graph')
+        gref = Ref(db.cell('graph'))
         steps = 2 if (self.mode == 'meta' or not quick) else 1
         hist = []
         line = ctx.sym_bv('line', 64)
@@ -309,7 +330,8 @@ class LibHarness(Harness):
                 spec = gen_doc_spec(ctx, targets[:2], 1, False)
             tok = self.new_token(spec, h, counter)
             before = arena_std(g)
-            ex.call('Graph::update_key', [gref, h.key(key), Ref(Cell(tok))])
+            ex.call('Database::update_document', [dbref, h.key(key), tok])
+            g = db.get('graph')
             texts[key] = tok
             hist.append((key, spec))
             ctx.input_desc = {'initial': {upd: old_spec, oth: other_spec}, 'history': hist,
@@ -317,9 +339,12 @@ class LibHarness(Harness):
                               'step_texts': step_texts + [render_neutral(self.cur_docs[tok][0])]}
             step_texts = ctx.input_desc['step_texts']
             ctx.hist_state = (dict(texts), {t: self.cur_docs[t][0] for t in texts.values()})
-            fresh = self.fresh(ex, texts)
+            fdb = self.fresh_db(ex, texts)
+            fresh = fdb.get('graph')
             oi, nodes_i, keys_i = self.observe(ex, g, texts, line)
             of, nodes_f, keys_f = self.observe(ex, fresh, texts, line)
+            oi.update(self.observe_db(ex, db, texts, nodes_i, ordinals(nodes_i, keys_i)))
+            of.update(self.observe_db(ex, fdb, texts, nodes_f, ordinals(nodes_f, keys_f)))
             info = {'input': ctx.input_desc}
             codiffs = [n_ for n_ in sorted(of) if oi.get(n_) != of[n_]]
             ctx.law('C18.paths-after-edit-equal-fresh-start', oi['paths'] == of['paths'], dict(info, incremental=oi['paths'], fresh=of['paths'], step=step))
